@@ -13,12 +13,21 @@ type txnGen struct {
 	native bool
 	hack   bool
 	nowIdx uint64
+	known  []uint64 // symbolic times of windows that certainly exist on the implementation side
 	// dbi name -> flags (application DBIs the script created)
 	dbis  map[string]uint
 	order []string
 }
 
 func (t *txnGen) now() uint64 {
+	t.nowIdx++
+	n := symBase + symStep*t.nowIdx
+	t.known = append(t.known, n)
+	return n
+}
+
+// nowMaybe: a symbolic time whose window may not come to exist (op may return early)
+func (t *txnGen) nowMaybe() uint64 {
 	t.nowIdx++
 	return symBase + symStep*t.nowIdx
 }
@@ -175,8 +184,8 @@ func (t *txnGen) snapshot() string {
 			case 1, 2:
 				ts = uint64(1 + t.r.Intn(6))
 			case 3:
-				if t.nowIdx > 0 {
-					ts = symBase + symStep*(1+uint64(t.r.Intn(int(t.nowIdx)))) + uint64(1+t.r.Intn(50))
+				if len(t.known) > 0 {
+					ts = t.known[t.r.Intn(len(t.known))] + uint64(1+t.r.Intn(50))
 				} else {
 					ts = 3
 				}
@@ -209,6 +218,11 @@ func (t *txnGen) snapshot() string {
 }
 
 func genTxnScript(g *Gen, native, hack, pad bool, steps int) []string {
+	return genTxnScriptF(g, native, hack, pad, steps, "")
+}
+
+// flavor selects which property's oracle op replaces the plain op: "c18", "c10", "c06", "c11".
+func genTxnScriptF(g *Gen, native, hack, pad bool, steps int, flavor string) []string {
 	t := &txnGen{g: g, r: g.R, native: native, hack: hack, dbis: map[string]uint{}}
 	t.lines = append(t.lines, "clock.reset", fmt.Sprintf("env.new a %s %s %s 0 -", b2s(native), b2s(hack), b2s(pad)))
 	for s := 0; s < steps; s++ {
@@ -217,9 +231,25 @@ func genTxnScript(g *Gen, native, hack, pad bool, steps int) []string {
 			t.lines = append(t.lines, "env.app a "+t.appOps(1+t.r.Intn(4)))
 		case 2, 3, 4:
 			ls := []string{"T", "T", "T-1", "0", "T+1"}[t.r.Intn(5)]
-			t.lines = append(t.lines, fmt.Sprintf("txn.load a %s %s %d 0", t.snapshot(), ls, t.now()))
+			switch {
+			case flavor == "c18":
+				t.lines = append(t.lines, fmt.Sprintf("prop.c18.load a %s %s %d 0", t.snapshot(), ls, t.now()))
+			case flavor == "c11" && !native:
+				// the loop's bookkeeping: lastSynced is the id after the previous LS transaction
+				t.lines = append(t.lines, fmt.Sprintf("prop.c11.load a %s %s %d 0", t.snapshot(), []string{"0", "T-1", "0"}[t.r.Intn(3)], t.now()))
+			case flavor == "c10":
+				snap := t.snapshot() // before the op's own windows exist
+				n1 := t.now()
+				t.lines = append(t.lines, fmt.Sprintf("prop.c10.reload a %s %d %d", snap, n1, t.nowMaybe()))
+			default:
+				t.lines = append(t.lines, fmt.Sprintf("txn.load a %s %s %d 0", t.snapshot(), ls, t.now()))
+			}
 		case 5:
-			t.lines = append(t.lines, fmt.Sprintf("txn.send a %d 0", t.now()))
+			if flavor == "c06" || flavor == "c10" {
+				t.lines = append(t.lines, fmt.Sprintf("prop.c06.send a %d 0", t.now()))
+			} else {
+				t.lines = append(t.lines, fmt.Sprintf("txn.send a %d 0", t.now()))
+			}
 		case 6:
 			if !native {
 				if t.r.Intn(2) == 0 {
@@ -232,6 +262,31 @@ func genTxnScript(g *Gen, native, hack, pad bool, steps int) []string {
 		t.lines = append(t.lines, "env.dump a")
 	}
 	return t.lines
+}
+
+func genTxnFlavor(flavor string) func(g *Gen, n int) {
+	return func(g *Gen, n int) {
+		count := n / 4
+		if count < 40 {
+			count = 40
+		}
+		for i := 0; i < count; i++ {
+			native := g.R.Intn(2) == 0
+			if flavor == "c11" {
+				native = false
+			}
+			hack := !native && g.R.Intn(3) == 0
+			pad := g.R.Intn(4) == 0
+			class := "shadow"
+			if native {
+				class = "native"
+			}
+			if hack {
+				class = "shadow-hack"
+			}
+			g.Emit(flavor+"/"+class, genTxnScriptF(g, native, hack, pad, 4+g.R.Intn(10), flavor)...)
+		}
+	}
 }
 
 func genTxn(g *Gen, n int) {
